@@ -243,6 +243,18 @@ func (v *View) Sync(k *K8s, order []string, pods []*v1.Pod) {
 	}
 }
 
+// SyncPods refreshes the pod half of the view only: the node and pod informers are
+// independent, the node cache may lag while the pod cache is current.
+func (v *View) SyncPods(pods []*v1.Pod) {
+	v.Pods = v.Pods[:0:0]
+	for _, p := range pods {
+		if p.Status.Phase == v1.PodSucceeded || p.Status.Phase == v1.PodFailed {
+			continue
+		}
+		v.Pods = append(v.Pods, p.DeepCopy())
+	}
+}
+
 // NodeByName finds a node in the view.
 func (v *View) NodeByName(name string) *v1.Node {
 	for _, n := range v.Nodes {
